@@ -25,6 +25,18 @@ func SetRcode(req *dns.Msg, rcode int, do bool) *dns.Msg {
 	return m
 }
 
+// onlyThisOPT removes from extra every OPT record other than keep, in place.
+func onlyThisOPT(extra []dns.RR, keep *dns.OPT) []dns.RR {
+	out := extra[:0]
+	for _, rr := range extra {
+		if o, ok := rr.(*dns.OPT); ok && o != keep {
+			continue
+		}
+		out = append(out, rr)
+	}
+	return out
+}
+
 // SetEdns0 returns replaced or new opt rr and if request has do.
 //
 // The function inspects the client's OPT record to harvest NSID / COOKIE
@@ -40,18 +52,6 @@ func SetRcode(req *dns.Msg, rcode int, do bool) *dns.Msg {
 // prefix ceiling. Every other client-supplied option is still dropped.
 // A nil policy or an empty client address means strip everything, which
 // matches SDNS's historical behaviour and the privacy-first default.
-// onlyThisOPT removes from extra every OPT record other than keep, in place.
-func onlyThisOPT(extra []dns.RR, keep *dns.OPT) []dns.RR {
-	out := extra[:0]
-	for _, rr := range extra {
-		if o, ok := rr.(*dns.OPT); ok && o != keep {
-			continue
-		}
-		out = append(out, rr)
-	}
-	return out
-}
-
 func SetEdns0(req *dns.Msg, policy *ecs.Policy, client netip.Addr) (*dns.OPT, int, string, bool, bool) {
 	do, nsid := false, false
 	opt := req.IsEdns0()
